@@ -3,6 +3,7 @@ package checks
 import (
 	"fmt"
 	"regexp"
+	"strconv"
 	"time"
 
 	jd "github.com/josephburnett/jd/v2"
@@ -149,7 +150,7 @@ func inexpressible(hs []ref.Hunk) string {
 		for _, pe := range h.Path {
 			switch pe.Kind {
 			case "key":
-				if numberLike.MatchString(pe.Key) {
+				if _, err := strconv.Atoi(pe.Key); err == nil && numberLike.MatchString(pe.Key) {
 					return "number-like key"
 				}
 				if pe.Key == "-" {
@@ -220,9 +221,8 @@ func runC09(c *engine.Case) engine.Result {
 		}
 		bucket = "translated/" + hunkShape(len(hs))
 		if why != "" {
-			// The statement lists this path as not expressible. A translation is tolerated only
-			// if it is right for the RFC (checked above) AND jd itself reads it back as the same
-			// change; otherwise it is the mistranslation the statement forbids.
+			// The statement says such paths "are refused with an error": rendering one is reported, also when the
+			// translation happens to be right for the RFC (checked above) and reads back (checked below).
 			bucket += "/although-" + why
 			back, rerr := jd.ReadPatchString(patch)
 			var after impl.PatchOutcome
@@ -234,6 +234,8 @@ func runC09(c *engine.Case) engine.Result {
 				fail = fmt.Sprintf("a path with a %s was rendered instead of refused, and jd's own reader does not read the patch back as the same change (%v %s)", why, rerr, after.String())
 				return
 			}
+			fail = fmt.Sprintf("a path with a %s was rendered instead of refused with an error", why)
+			return
 		}
 		if len(hs) == 0 {
 			return
